@@ -621,6 +621,10 @@ def _user_on_stop(ctx: Ctx, tag: str, client_key: str = "0") -> Callable:
     async def on_stop(expected: bool) -> None:
         w = ctx.world
         w.rec("user_on_stop", tag=tag, expected=bool(expected))
+        if ctx.scn.get("on_stop_delay"):
+            # the application's stop handling takes its time (it awaits something): later sessions may end meanwhile
+            await sim_sleep(w, float(ctx.scn["on_stop_delay"]))
+            w.rec("user_on_stop_done", tag=tag)
         plan = ctx.scn.get("on_stop_do")
         if not plan:
             return
@@ -1203,6 +1207,10 @@ async def _s_sub(ctx: Ctx, a: Actor, st: dict) -> Any:
             else:
                 d["fields"] = _plain_fields(state)
             w.rec("cb_state", **d)
+            if type(state).__name__ == "CameraState" and state.key in st.get("raise_on_camera_keys", ()):
+                # an application bug: the consumer chokes on a completed image
+                w.rec("cb_raise", sid=tag)
+                raise ValueError("state consumer failed on an image")
 
         cli.subscribe_states(on_state)
     elif kind == "logs":
